@@ -479,6 +479,21 @@ def mk_b58(code, pmode, psel, cmode, sel, sel2, n, hp, raw):
         payload = mk_hash(max(1, [19, 21, 31, 32, 33, 34][sel % 6]), *hp)
     else:                                            # something valid under a *different* own prefix kind: kinds apart
         payload = [mk_hash(20, *hp), key_payloads(sel, raw), bip32_bodies(sel, sel2 % 6, raw)][sel2 % 3]
+    if cmode <= 1 and n % 5 == 1:
+        # the same kind of payload, its free part chosen so that the text has a run of one digit at an aligned group of
+        # positions (ten '1's at a multiple of ten from the end, ...): the hash, the exponent, or the chain code
+        from gen.common import b58_digit_run_data
+        run = ([10, 10, 10, 8, 9, 11, 12, 4, 5, 16][sel % 10], sel2 % 4, [0, 0, 0, 57, 1, 33][(sel // 10) % 6], raw[0] * 256 + raw[1])
+        if attr in ("address", "pay_to_script") and len(payload) == 20:
+            shaped = b58_digit_run_data(prefix, 20, b"", *run)
+        elif attr == "wif" and len(payload) in (32, 33):
+            shaped = b58_digit_run_data(prefix, 32, payload[32:], *run)
+        elif attr.startswith("bip") and len(payload) == 74:
+            shaped = b58_digit_run_data(prefix + payload[:13], 28, payload[41:], *run)
+        else:
+            shaped = None
+        if shaped is not None:
+            payload = shaped[len(prefix):]
     if attr.startswith("bip") and len(payload) == 74 and n % 4 == 0:
         # a well-formed extended key whose body carries, somewhere inside, the version bytes of ANOTHER of the network's
         # checksummed kinds (another extended-key flavour, or the WIF / address byte run): the version is what the text
